@@ -43,7 +43,20 @@ func PrintExcerpt(repo, pos string) {
 // RecvNamed returns the named type of a method's receiver (pointer stripped), or nil.
 func RecvNamed(f *types.Func) *types.Named {
 	sig, ok := f.Type().(*types.Signature)
-	if !ok || sig.Recv() == nil {
+	if !ok {
+		return nil
+	}
+	if sig.Recv() == nil {
+		// a method that was turned into a plain function `f(recv *T, ...)` and resolved as such (see
+		// Program.Method): its first parameter plays the receiver
+		if PseudoMethod[f] && sig.Params().Len() > 0 {
+			t := sig.Params().At(0).Type()
+			if p, ok := t.(*types.Pointer); ok {
+				t = p.Elem()
+			}
+			n, _ := t.(*types.Named)
+			return n
+		}
 		return nil
 	}
 	t := sig.Recv().Type()
@@ -115,7 +128,7 @@ func Methods(n *types.Named) []*types.Func {
 // Param returns the i-th declared parameter (excluding receiver) of an SSA function.
 func Param(fn *ssa.Function, i int) *ssa.Parameter {
 	off := 0
-	if fn.Signature.Recv() != nil {
+	if fn.Signature.Recv() != nil || isPseudo(fn) {
 		off = 1
 	}
 	if off+i < len(fn.Params) {
@@ -126,10 +139,23 @@ func Param(fn *ssa.Function, i int) *ssa.Parameter {
 
 // Recv returns the receiver parameter of a method.
 func Recv(fn *ssa.Function) *ssa.Parameter {
-	if fn.Signature.Recv() != nil && len(fn.Params) > 0 {
+	if (fn.Signature.Recv() != nil || isPseudo(fn)) && len(fn.Params) > 0 {
 		return fn.Params[0]
 	}
 	return nil
+}
+
+// PseudoMethod: plain functions `f(recv *T, args...)` that an anchor for method T.f was resolved to
+// (the refactoring "method -> function taking the receiver first" keeps the body; the rules keep
+// judging it as the method it was).
+var PseudoMethod = map[*types.Func]bool{}
+
+func isPseudo(fn *ssa.Function) bool {
+	if fn == nil {
+		return false
+	}
+	f, ok := fn.Object().(*types.Func)
+	return ok && PseudoMethod[f]
 }
 
 // ObjOf resolves an identifier or selector expression to its object.
